@@ -27,7 +27,8 @@ ASSUMPTIONS = ["reference table (vmon/props/C06.py:REFERENCE_*) transcribed from
                "QL[,index]; ST,name; T3,1,0,0,0,0,0,0,3 for clearing the accumulators",
                "helpers that are firmware-gated may send the V version probe before their command (legacy layer)",
                "motors_enable on the EBB3 layer may precede the final EM,c1,c2 only by CU,50,0 (exactly one motor "
-               "requested), QE and EM,c2,c2 (only motor 2 requested and the board reports another resolution)"]
+               "requested: required), QE (optional) and EM,c2,c2 (only motor 2 requested: optional, at most once); "
+               "the four slot requests of var_write_int32 / var_read_int32 may come in any order"]
 
 INT31 = 2 ** 31 - 1
 
@@ -342,14 +343,26 @@ def compare(helper, ref, got, gated):
     if gated:
         got = [g for g in got if g.upper() != "V"]
     if helper == "motors_enable" and got and isinstance(ref, list) and got != ref:
-        # the documented command is the final EM,c1,c2; the auxiliaries (CU,50,0 / QE / EM,c2,c2) may come
-        # in any order as long as EM,c2,c2 - which depends on the QE answer - does not precede QE
-        aux_ok = sorted(got[:-1]) == sorted(ref[:-1]) and got[-1] == ref[-1]
-        if aux_ok and "QE" in got:
-            pre = [g for g in got[:-1] if g.startswith("EM,")]
-            aux_ok = all(got.index(g) > got.index("QE") for g in pre)
+        # the documented command is the final EM,c1,c2.  What may precede it is auxiliary and not fixed by
+        # the statement: CU,50,0 (needed, once, exactly when one motor is requested), the QE enquiry (no
+        # effect on the board; zero to two of them, anywhere) and the EM,c2,c2 pre-set of the global
+        # resolution (only when motor 2 alone is requested; at most once; whether it is needed is a matter
+        # of board state, which C16 decides)
+        final = ref[-1]
+        _, c1, c2 = final.split(",")
+        aux = got[:-1]
+        one_motor = c1 != c2 and (c1 == "0" or c2 == "0")
+        preset = "EM,%s,%s" % (c2, c2)
+        aux_ok = got[-1] == final \
+            and aux.count("CU,50,0") == (1 if one_motor else 0) \
+            and aux.count("QE") <= 2 \
+            and aux.count(preset) <= (1 if (c1 == "0" and c2 != "0") else 0) \
+            and all(a in ("CU,50,0", "QE", preset) for a in aux)
         if aux_ok:
             return None
+    if helper in ("var_write_int32", "var_read_int32") and isinstance(ref, list) and sorted(got) == sorted(ref):
+        # four single-slot requests; the order in which the four slots are visited is not documented
+        return None
     if isinstance(ref, tuple) and ref[0] == "pause":
         ok, why = pause_ok(ref[1], got)
         return None if ok else {"kind": "timed pause not conserved", "why": why, "wrote": got[:8], "n": ref[1]}
@@ -595,6 +608,9 @@ def run(ctx):
     for i in range(per):
         if not ctx.alive():
             break
+        if rng.random() < 0.08:
+            from .. import noise
+            noise.burst(ctx, rng, exclude=('versions', 'discovery'))
         for name, (kind, ref) in leg_ref.items():
             got = run_legacy(ctx, rng, name, kind, ref)
             if i == 0 and got is not None:
@@ -620,6 +636,7 @@ def run(ctx):
                 "sr:state non-zero", "no port:legacy", "no port:ebb3"):
         ctx.need(cls, 30)
     ctx.need("pause:more than 4000 chunks", 4)
+    ctx.need("history: after calls to other library functions", 60)
     ctx.need("session: same call repeated", 3000)
     ctx.need("call style: arguments by keyword", 3000)
     ctx.need("session: another call on the same object", 5000)
